@@ -87,7 +87,7 @@ func genCase(t *rapid.T) Case {
 		t.Fatalf("harness: %v", err)
 	}
 	depth := ev.Pick(4, 12)
-	c.Msg = cat.Message(t, gen.TreeOpts{MaxTop: 12, MaxDepth: rapid.IntRange(1, depth).Draw(t, "max-depth")})
+	c.Msg = cat.Message(t, gen.TreeOpts{MaxTop: 12, MaxDepth: rapid.IntRange(1, depth).Draw(t, "max-depth"), Val: gen.ValueOpts{SubSecond: true}})
 	c.DropV = rapid.Bool().Draw(t, "drop-v")
 	c.TopDown = rapid.Bool().Draw(t, "top-down")
 	c.Literal = rapid.IntRange(0, 3).Draw(t, "literal") == 0
